@@ -58,9 +58,25 @@ def build() -> tuple[bool, str]:
     return r.returncode == 0, (r.stdout + r.stderr)[-4000:]
 
 
-def forbidden_hits():
+def import_closure(pid: str):
+    """Lean files of this project that Properties/<pid>.lean and the driver transitively import"""
+    roots = [os.path.join(LEAN_DIR, "Toq", "Properties", f"{pid}.lean"), os.path.join(LEAN_DIR, "Main.lean")]
+    seen, todo = set(), [r for r in roots if os.path.exists(r)]
+    while todo:
+        f = todo.pop()
+        if f in seen:
+            continue
+        seen.add(f)
+        for m in re.finditer(r"^import\s+(Toq[\w.]*)", open(f).read(), re.M):
+            g = os.path.join(LEAN_DIR, *m.group(1).split(".")) + ".lean"
+            if os.path.exists(g):
+                todo.append(g)
+    return sorted(seen)
+
+
+def forbidden_hits(pid: str):
     hits = []
-    for f in lean_sources():
+    for f in import_closure(pid):
         src = strip_comments(open(f).read())
         for m in FORBIDDEN.finditer(src):
             hits.append(f"{os.path.relpath(f, LEAN_DIR)}: {m.group(0).strip()}")
@@ -92,7 +108,7 @@ def audit(pid: str, use_cache: bool = True) -> dict:
     if not ok:
         res["problems"].append("lake build failed: " + log[-1500:])
         return res
-    bad = forbidden_hits()
+    bad = forbidden_hits(pid)
     if bad:
         res["problems"].append("forbidden constructs: " + "; ".join(bad[:10]))
     if not names:
